@@ -43,6 +43,8 @@ RULE = (
     'number of operator nodes in the source (a shortcut or rewrite fired), or '
     'the source has a unit or operator node nothing references (dead code). '
     'Distinct by sha1 of the spec.')
+RULE += ' ' + (
+    'Unary operators are also spelled through the Python protocols (-x, abs(x), ~x, math.ceil(x), math.floor(x)).')
 ASSUMPTIONS = [
     'Inputs to a unit are never faster than the unit (well-formed graphs).',
     'Operator units carry no identity: an extra unreferenced arithmetic unit '
